@@ -21,7 +21,7 @@ Alphabet ==
   { [kind |-> "Apply", id |-> i, type |-> t, stake |-> MinStake(t) + d, account |-> a, source |-> a] :
       i \in Ids, t \in {0, 1}, d \in {-1, 0, 1}, a \in Accounts } \cup
   { [kind |-> "Add", id |-> i, type |-> 0, stake |-> d, account |-> 0, source |-> s] :
-      i \in Ids, d \in {0, 1, 200}, s \in {1, 2} } \cup
+      i \in Ids, d \in {0, 1, 200, 2000}, s \in {1, 2} } \cup
   { [kind |-> "Refund", id |-> i, type |-> 0, stake |-> m, account |-> 0, source |-> s] :
       i \in Ids, m \in {1, 400, -1, 5000}, s \in Accounts } \cup
   { [kind |-> "Change", id |-> i, type |-> 0, stake |-> 0, account |-> a, source |-> s] :
